@@ -2885,7 +2885,7 @@ func treasureToKeyValuePair(treasureInterface treasure.Treasure, t *hydrapb.Trea
 		modifiedBy := treasureInterface.GetModifiedBy()
 		t.UpdatedBy = &modifiedBy
 	}
-	if treasureInterface.GetExpirationTime() > 0 {
+	if treasureInterface.GetExpirationTime() != 0 {
 		t.ExpiredAt = timestamppb.New(time.Unix(0, treasureInterface.GetExpirationTime()))
 	}
 
